@@ -16,88 +16,125 @@ From M Require Import Timer TimerSpec.
 From P Require Import TimerP.
 Import ListNotations.
 
-(* The property over complete traces, for EVERY configuration, number of models, initial state and
-   timed history.  spec_C17 (TimerSpec.v) says, reading the trace from left to right:
-   - a model that enters state s at time t (TEntered) with timeout(s) = d > 0 has an outstanding timeout
-     with deadline t + d; re-entering — also s itself through a reflexive transition — starts a fresh one;
+(* The property over complete traces, for EVERY configuration inside the guard, number of models, initial
+   state and timed history.  Guard (TimerSpec.guard_C17): on an UNQUEUED machine the events triggered by
+   on_exit callbacks are inert in the state they are attached to (unknown / invalid / failing condition /
+   internal) — any other such trigger re-runs the exit of the same state for ever (RecursionError in
+   Python, out of fuel here); queued machines: no restriction; on_enter callbacks: no restriction (they
+   may leave the state at once, re-enter it, ... to any depth).
+   spec_C17 (TimerSpec.v) says, reading the trace from left to right (TExited / TEntered mark the
+   changes of the model's state attribute):
+   - a model whose state becomes s at time t with timeout(s) = d > 0 has an outstanding timeout with
+     deadline t + d; re-entering — also s itself through a reflexive transition — starts a fresh one;
    - a timeout handler runs (TFired m s t') only for a model with an outstanding timeout in s and only
      at t' = its deadline, and that uses the timeout up: exactly at t + d, at most once per stay, never
-     after the stay has ended, never for another model's stay;
-   - when the model leaves s (TExited) an outstanding timeout must not be overdue and is dropped: it
-     can never fire later;
+     after the stay has ended (also when an on_enter callback of s itself ended it), never for another
+     model's stay;
+   - when the model leaves s an outstanding timeout must not be overdue and is dropped: it can never
+     fire later;
    - when the caller issues an event at time t (TUser), and at the end of the history, no model has an
      outstanding timeout with deadline <= t: every timeout that came due while the model stayed has
      fired — at least once;
    - internal transitions produce no marker, so they neither restart nor stop a period; the bookkeeping
      is per model, so timers of different models do not interact. *)
 Theorem C17_once_on_time : forall (c : tcfg) (nm : nat) (s0 : tstate) (h : list top),
+  guard_C17 c = true ->
   spec_C17 c nm s0 (run_trace c (init_world s0) h) (w_clock (run_world c (init_world s0) h)) = true.
 Proof. exact timed_spec. Qed.
 Print Assumptions C17_once_on_time.
 
-(* Non-vacuity: a machine with two models whose timeout handler re-enters the state; the trace contains
-   firings at 3, 5 (model 0) and 4 (model 1, which then leaves), a cancelled period, and spec_C17 is not
-   constantly true: it rejects the same trace with one firing removed, doubled, or delayed. *)
-Definition ex_cfg : tcfg :=
-  mkTC false false
-       [(0, mkTS 3 [mkOcb 1 None false; mkOcb 2 (Some (None, 0)) false] [] []);
-        (1, mkTS 2 [mkOcb 3 None false] [] []); (2, ts_default)]
-       [mkTT 0 0 (Some 1) true; mkTT 1 2 (Some 0) true; mkTT 2 1 (Some 2) true; mkTT 3 0 None true] false [].
+(* Non-vacuity: two models; the timeout handler of state 0 moves its model to state 1, whose on_enter
+   callback leaves state 1 AT ONCE (to 2): the timer of state 1, started before the callback ran, is
+   cancelled by that exit and never fires; the on_exit callback of state 0 triggers an event that is
+   internal in state 0.  Unqueued (nested) and queued (deferred) machines are inside the guard and give
+   the same markers; spec_C17 is not constantly true. *)
+Definition ex_cfg (queued : bool) : tcfg :=
+  mkTC false queued
+       [(0, mkTS 3 [mkOcb 1 None false; mkOcb 2 (Some (None, 0)) false] [] [mkEcb 6 (Some 3)]);
+        (1, mkTS 2 [mkOcb 3 None false] [mkEcb 5 (Some 2)] []); (2, ts_default)]
+       [mkTT 0 0 (Some 1) true; mkTT 1 2 (Some 0) true; mkTT 2 1 (Some 2) true; mkTT 3 0 None true] true [].
 Definition ex_hist : list top :=
-  [HEvent 0 1; HAdvance 1; HEvent 1 1; HEvent 0 3; HAdvance 2; HAdvance 1; HEvent 1 2; HAdvance 4].
+  [HEvent 0 1; HAdvance 1; HEvent 1 1; HEvent 0 3; HAdvance 2; HAdvance 1; HEvent 1 0; HAdvance 4].
 Definition markers (l : list titem) : list titem :=
   filter (fun it => match it with TExited _ _ _ | TEntered _ _ _ | TFired _ _ _ => true | _ => false end) l.
+Definition ex_markers : list titem :=
+  [TExited 0 2 0; TEntered 0 0 0; TExited 1 2 1; TEntered 1 0 1;
+   TFired 0 0 3; TExited 0 0 3; TEntered 0 1 3; TExited 0 1 3; TEntered 0 2 3;
+   TFired 1 0 4; TExited 1 0 4; TEntered 1 1 4; TExited 1 1 4; TEntered 1 2 4].
 Example C17_nonvacuous :
-  markers (run_trace ex_cfg (init_world 2) ex_hist) =
-    [TExited 0 2 0; TEntered 0 0 0; TExited 1 2 1; TEntered 1 0 1;
-     TFired 0 0 3; TExited 0 0 3; TEntered 0 1 3;
-     TFired 1 0 4; TExited 1 0 4; TEntered 1 1 4; TExited 1 1 4; TEntered 1 2 4;
-     TFired 0 1 5] /\
-  spec_C17 ex_cfg 2 2 (run_trace ex_cfg (init_world 2) ex_hist) 8 = true /\
-  spec_C17 ex_cfg 2 2 [TExited 0 2 0; TEntered 0 0 0] 8 = false /\                         (* never fired *)
-  spec_C17 ex_cfg 2 2 [TExited 0 2 0; TEntered 0 0 0; TFired 0 0 4] 8 = false /\           (* late *)
-  spec_C17 ex_cfg 2 2 [TExited 0 2 0; TEntered 0 0 0; TFired 0 0 3; TFired 0 0 3] 8 = false /\  (* twice *)
-  spec_C17 ex_cfg 2 2 [TExited 0 2 0; TEntered 0 0 0; TExited 0 0 1; TEntered 0 2 1; TFired 0 0 3] 8 = false /\
-                                                                                           (* after leaving *)
-  spec_C17 ex_cfg 2 2 [TExited 0 2 0; TEntered 0 0 0; TFired 1 0 3] 8 = false.             (* wrong model *)
+  guard_C17 (ex_cfg false) = true /\ guard_C17 (ex_cfg true) = true /\
+  markers (run_trace (ex_cfg false) (init_world 2) ex_hist) = ex_markers /\
+  markers (run_trace (ex_cfg true) (init_world 2) ex_hist) = ex_markers /\
+  spec_C17 (ex_cfg false) 2 2 (run_trace (ex_cfg false) (init_world 2) ex_hist) 8 = true /\
+  spec_C17 (ex_cfg false) 2 2 [TExited 0 2 0; TEntered 0 0 0] 8 = false /\                         (* never fired *)
+  spec_C17 (ex_cfg false) 2 2 [TExited 0 2 0; TEntered 0 0 0; TFired 0 0 4] 8 = false /\           (* late *)
+  spec_C17 (ex_cfg false) 2 2 [TExited 0 2 0; TEntered 0 0 0; TFired 0 0 3; TFired 0 0 3] 8 = false /\  (* twice *)
+  spec_C17 (ex_cfg false) 2 2 [TExited 0 2 0; TEntered 0 0 0; TExited 0 0 1; TEntered 0 2 1; TFired 0 0 3] 8 = false /\
+                                                                                                   (* after leaving *)
+  spec_C17 (ex_cfg false) 2 2 [TExited 0 2 0; TEntered 0 0 0; TFired 0 0 3; TExited 0 0 3; TEntered 0 1 3;
+                               TExited 0 1 3; TEntered 0 2 3; TFired 0 1 5] 8 = false /\
+                                                          (* the timer of a state left by its own on_enter callback *)
+  spec_C17 (ex_cfg false) 2 2 [TExited 0 2 0; TEntered 0 0 0; TFired 1 0 3] 8 = false.             (* wrong model *)
 Proof. vm_compute. repeat split. Qed.
 Print Assumptions C17_nonvacuous.
 
+(* Outside the guard the statement is false of the model: an unqueued on_exit callback that triggers a
+   state-changing event recurses until the fuel is gone (Python: RecursionError — there is no run of the
+   library to compare with); every unwinding level then enters the destination again without the exit
+   that would cancel the previous level's timer. *)
+Definition bad_cfg : tcfg :=
+  mkTC false false [(0, mkTS 0 [] [] [mkEcb 1 (Some 0)]); (1, mkTS 2 [mkOcb 2 None false] [] [])]
+       [mkTT 0 0 (Some 1) true] true [].
+Theorem C17_guard_needed : exists (c : tcfg) (h : list top),
+  guard_C17 c = false /\
+  spec_C17 c 1 0 (run_trace c (init_world 0) h) (w_clock (run_world c (init_world 0) h)) = false.
+Proof. exists bad_cfg, [HEvent 0 0; HAdvance 3]. vm_compute. split; reflexivity. Qed.
+Print Assumptions C17_guard_needed.
+
 (* The invariant behind it, after every history: every pending timer belongs to the state its model is
    in now, is the timer registered for that model in that state's runner dictionary (so there is at most
-   one per model, and none for a state the model has left), and its deadline lies in the future. *)
+   one per model, none for a state the model has left, and the runner entry is always the latest timer),
+   and its deadline lies in the future. *)
 Theorem C17_invariant : forall (c : tcfg) (s0 : tstate) (h : list top),
-  Inv true (run_world c (init_world s0) h).
+  guard_C17 c = true -> Inv true (run_world c (init_world s0) h).
 Proof. exact inv_reachable. Qed.
 Print Assumptions C17_invariant.
 
-(* Never if left: from any world satisfying the invariant, when model m executes a transition with a
-   destination d (reflexive included), the only timer that can be pending for m afterwards is the one
-   created by this very entry (position = number of timers that existed before) — the timer of the state
-   that was left is not pending any more, and only pending timers are ever run ([fire_due]). *)
+(* The timer bookkeeping of ONE state change, [switch] = Timeout.exit's cancel, Machine.set_state,
+   Timeout.enter's start — what Transition._change_state does between the on_exit and the on_enter
+   callbacks ([change_state] in Timer.v) — from any world satisfying the invariant:
+
+   Never if left: the only timer that can be pending for m afterwards is the one created by this very
+   entry (position = number of timers that existed before): the timer of the state that was left is not
+   pending any more, and only pending timers are ever run ([fire_due]).  It exists BEFORE the on_enter
+   callbacks of d run, so a callback that leaves d finds and cancels it. *)
 Theorem C17_never_if_left :
-  forall (b : bool) (c : tcfg) (w : world) (m : tmodel) (e : tevent) (t : ttrans) (d : tstate),
-  Inv b w -> event_known c e = true -> first_ok (cands c e (w_st w m)) = Some t -> tt_dst t = Some d ->
-  forall j tm, pend (snd (fst (step c w m e))) j tm -> tm_model tm = m ->
+  forall (b : bool) (c : tcfg) (w : world) (m : tmodel) (d : tstate),
+  Inv b w ->
+  forall j tm, pend (snd (switch c w m d)) j tm -> tm_model tm = m ->
     j = length (w_timers w) /\ tm_state tm = d /\ tm_deadline tm = w_clock w + timeout_of c d.
 Proof. exact never_if_left_local. Qed.
 Print Assumptions C17_never_if_left.
 
-(* Restart: whatever deadline was outstanding for m before, after a transition into d (also d = the
-   current state) the outstanding deadline of m is now + timeout(d) (none if d has no timeout); an
-   internal transition leaves it exactly as it was. *)
-Theorem C17_restart : forall (b : bool) (c : tcfg) (w : world) (m : tmodel) (e : tevent) (t : ttrans),
-  Inv b w -> event_known c e = true -> first_ok (cands c e (w_st w m)) = Some t ->
-  armed (snd (fst (step c w m e))) m =
-    match tt_dst t with Some d => period c d (w_clock w) | None => armed w m end.
+(* Restart: whatever deadline was outstanding for m before, after the change into d (also d = the current
+   state) the outstanding deadline of m is now + timeout(d) (none if d has no timeout) ... *)
+Theorem C17_restart : forall (b : bool) (c : tcfg) (w : world) (m : tmodel) (d : tstate),
+  Inv b w -> armed (snd (switch c w m d)) m = period c d (w_clock w).
 Proof. exact restart_local. Qed.
 Print Assumptions C17_restart.
 
-(* Per model: an event of model m changes neither the state nor the outstanding deadline of any other
-   model, also when both are in the same state. *)
-Theorem C17_per_model : forall (b : bool) (c : tcfg) (w : world) (m : tmodel) (e : tevent) (m' : tmodel),
+(* ... and an internal transition changes nothing at all (no exit, no enter, no timer). *)
+Theorem C17_internal : forall (rec : rec_t) (c : tcfg) (w : world) (q : queue) (m : tmodel) (e : tevent) (t : ttrans),
+  event_known c e = true -> first_ok (cands c e (w_st w m)) = Some t -> tt_dst t = None ->
+  step rec c w q m e = ([], w, q, RTrue).
+Proof. exact internal_local. Qed.
+Print Assumptions C17_internal.
+
+(* Per model: a state change of model m changes neither the state nor the outstanding deadline of any
+   other model, also when both are in the same state. *)
+Theorem C17_per_model : forall (b : bool) (c : tcfg) (w : world) (m : tmodel) (d : tstate) (m' : tmodel),
   Inv b w -> m' <> m ->
-  armed (snd (fst (step c w m e))) m' = armed w m' /\ w_st (snd (fst (step c w m e))) m' = w_st w m'.
+  armed (snd (switch c w m d)) m' = armed w m' /\ w_st (snd (switch c w m d)) m' = w_st w m'.
 Proof. exact per_model_local. Qed.
 Print Assumptions C17_per_model.
 
@@ -110,16 +147,14 @@ Proof. exact build_spec. Qed.
 Print Assumptions C17_validation.
 
 (* asyncio, shield: a firing logs EVERY on_timeout callback of the state, in order, with the state and
-   time of the firing, and every event a callback triggers returns a result — although the transition
-   triggered by the handler exits the state and cancels the very timer whose handler is running.
+   time of the firing — although the transition triggered by one of them exits the state and cancels the
+   very timer whose handler is running (and whatever the callbacks of that transition trigger in turn).
    (callback ids are positive: 0 stands for MachineError in on_exception items) *)
 Theorem C17_async_shield : forall (b : bool) (c : tcfg) (w : world) (i : nat) (tm : timer),
   tc_async c = true -> Inv b w -> pend w i tm -> ids_positive c (tm_state tm) = true ->
   filter is_ctimeout (fst (fire c w i tm)) =
     map (fun cb => CTimeout (oc_id cb) (tm_model tm) (tm_state tm) (w_clock w))
-        (ts_on_timeout (sdef c (tm_state tm))) /\
-  length (filter is_cres (fst (fire c w i tm))) =
-    length (filter has_act (ts_on_timeout (sdef c (tm_state tm)))).
+        (ts_on_timeout (sdef c (tm_state tm))).
 Proof. exact async_shield. Qed.
 Print Assumptions C17_async_shield.
 
